@@ -14,11 +14,18 @@ def run(ctx: Ctx) -> None:
     # judged by TLC against RegistryContract.tla (clauses C03_Registry*)
     from props import registrymodel
     registrymodel.run(ctx, 'C03')
+    # the memoised records of a description: Info.tla explored by TLC, its histories performed on a real ServiceInfo
+    from props import infomodel
+    infomodel.run(ctx, 'C03')
 
 
 def replay(ctx: Ctx, path: str) -> None:
     import json
     rep = json.load(open(path))['replay']
+    if 'info_history' in rep:
+        from props import infomodel
+        infomodel.run(ctx, 'C03', [dict(rep['info_history'], id='info-replay')])
+        return
     if 'registry_history' in rep:
         from props import registrymodel
         registrymodel.run(ctx, 'C03', [dict(rep['registry_history'], id='registry-replay')])
